@@ -1481,6 +1481,8 @@ class CanUnprotect(BaseSecurityContext):
 
         if firstbyte & COMPRESSION_BIT_H:
             # kid context hint
+            if len(tail) < 1:
+                raise DecodeError("Context hint announced but length not present")
             s = tail[0]
             if len(tail) - 1 < s:
                 raise DecodeError("Context hint announced but not present")
